@@ -45,7 +45,13 @@ def make_1d(rng, nb=None, read_edges=None):
         kw["weights"] = np.asarray([rng.randint(1, 16) / 4 for _ in range(n)], dtype=float)
     if rng.random() < 0.15:
         kw["keep_missed"] = False
-    if kind == "numpy" and not gapped:
+    if not gapped and rng.random() < 0.12:
+        # integer contents far beyond 2**53 (given directly): the bookkeeping of what a slice cuts off stays exact
+        from physt.histogram1d import Histogram1D
+
+        big = np.array([2**58 + rng.randint(0, 99) if rng.random() < 0.6 else rng.randint(0, 9) for _ in range(len(pairs))], dtype=np.int64)
+        h = Histogram1D(np.array([p[0] for p in pairs] + [pairs[-1][1]]), big, name="src", axis_name="x")
+    elif kind == "numpy" and not gapped:
         h = physt.h1(np.asarray(data + [pairs[0][0], pairs[-1][1]], dtype=float), len(pairs))
     else:
         h = physt.h1(np.asarray(data, dtype=float), np.array(pairs), name="src", axis_name="x", **kw)
